@@ -159,6 +159,7 @@ Definition interN (a b : list N) : list N := filter (fun k => memN k b) a.
    8 always-ready streamer missed a frame (or part of it) it must receive *)
 Definition item_kinds (isc : list (nat * (op * outcome))) (ws : list wrec) (s : N) (it : obs_item) : list N :=
   let '(w, q, ks) := it in
+  match ks with [] => [] | _ =>     (* an empty frame carries no series: nothing to demand *)
   match filter (fun r => (wr_w r =? w) && (wr_seq r =? q)) ws with
   | [] => [1]
   | r :: _ =>
@@ -168,7 +169,7 @@ Definition item_kinds (isc : list (nat * (op * outcome))) (ws : list wrec) (s : 
       (if existsb (fun k => memN k (wr_unowned r) && memN k (wr_orig r)) ks then [6] else []) ++
       (let ps := psets isc s (wr_idx r) in
        if forallb (fun k => existsb (memN k) ps) ks then [] else [7])
-  end.
+  end end.
 
 Fixpoint order_kinds (its : list obs_item) : list N :=
   match its with
